@@ -167,7 +167,8 @@ def child(out_npz):
         puq = np.zeros((atco.nao, 3))
         atco.convert_rad2orb_(th, puq, ra_loc, rads, rad2orb=True)
         back = np.zeros_like(th)
-        atco.convert_rad2orb_(back, np.ascontiguousarray(np.random.default_rng(natm + 1).normal(size=(atco.nao, 3))), ra_loc, rads, rad2orb=False)
+        ar_loc = np.ascontiguousarray(np.repeat(np.arange(natm, dtype=np.int32), np.diff(ra_loc)))    # atom of every radial point
+        atco.convert_rad2orb_(back, np.ascontiguousarray(np.random.default_rng(natm + 1).normal(size=(atco.nao, 3))), ar_loc, rads, rad2orb=False)
         res["rad_orb_small_%s" % nm] = np.concatenate([puq.ravel(), back.ravel()])
     np.savez(out_npz, **res)
 
